@@ -65,7 +65,7 @@ Fixpoint close_eqb (tol : Z) (a b : list Z) : bool :=
 
 Definition agrees (inp out : list Z) : bool :=
   let r := run inp in
-  let n := (2 + Z.to_nat (nth 3 inp 0))%nat in
+  let n := (2 + Z.to_nat (nth 3 inp 0%Z))%nat in
   let s := nth 12 inp 0 in
   zlist_eqb (firstn n r) (firstn n out) && close_eqb (2 ^ (s - 36)) (skipn n r) (skipn n out).
 
